@@ -1,7 +1,7 @@
 Require Extraction.
 Require Import ExtrOcamlBasic.
 From Coq Require Import NArith.
-From HV Require Import Llsd.Llsd Llsd.LlsdString Llsd.LlsdBinary Llsd.LlsdNotation Llsd.LlsdMsg.
+From HV Require Import Llsd.Llsd Llsd.LlsdString Llsd.LlsdBinary Llsd.LlsdNotation Llsd.LlsdNotationParse Llsd.LlsdMsg.
 Extraction Language OCaml.
 Extraction "c12_model.ml" format_binary bin_ok parse_binary parse_bin_rest fmt_not_string parse_not_string
-  fmt_not utf8_valid canon wf keys_uris_nl_free to_llsd_var of_llsd_var conforms N.add N.mul.
+  fmt_not utf8_valid canon wf keys_uris_nl_free parse_not_rest scan_real to_llsd_var of_llsd_var conforms N.add N.mul.
